@@ -83,7 +83,7 @@ def impl(line):
         return f"{';'.join(long)} | {';'.join(fresh)} | {','.join(sorted(set(mutated))) or '-'}"
     raise ValueError(op)
 
-PROPS_OF = {'manager': ['C16', 'C10', 'C18'], 'ruler': ['C16', 'C04', 'C18'], 'front': ['C16', 'C15']}
+PROPS_OF = {'manager': ['C16', 'C10', 'C18', 'C11'], 'ruler': ['C16', 'C04', 'C18'], 'front': ['C16', 'C15']}
 
 def oracle(line, out):
     body, meta = split_meta(line)
@@ -108,10 +108,10 @@ def branch(line, out): return 'hist:' + line.split()[1]
 
 def gen(props, tier, rng):
     props = set(props); q = tier == 'quick'
-    tags = ' '.join(sorted(props & {'C04', 'C10', 'C15', 'C18'}))
+    tags = ' '.join(sorted(props & {'C04', 'C10', 'C11', 'C15', 'C18'}))
     H = 10 if q else 60
     LEN = 50 if q else 300
-    if props & {'C16', 'C10', 'C18'}:
+    if props & {'C16', 'C10', 'C18', 'C11'}:
         for h in range(H):
             stack = schcstream.STACKS[h % 5]
             pool = []
@@ -141,9 +141,16 @@ def gen(props, tier, rng):
                     ops.append(f"c {pk} {rng.choice('UD')} {rng.choice(['first', 'best'])}")
                     if rng.random() < 0.3:
                         schcs.append('R:' + rulegen.rbits(rng, rng.randrange(1, 200)))
-                    if len(schcs) < 8:
+                    if len(schcs) < 24:
                         # a genuine SCHC packet of this rule set (computed by the reference; any bit string is fine for the history check)
-                        schcs.append('R:' + ids[rng.randrange(0, 9)] + rulegen.rbits(rng, rng.randrange(0, 120)))
+                        s0 = ids[rng.randrange(0, 9)] + rulegen.rbits(rng, rng.randrange(0, 120))
+                        schcs.append('R:' + s0)
+                        # the same leading bytes again as a shorter packet and on the other padding side: what the ruler answers
+                        # for one SCHC packet must not depend on the packets it was asked about before
+                        k = rng.choice([1, 2, 3, 5, 8, 12, 16])
+                        schcs.append('R:' + s0[:k])
+                        schcs.append('L:' + s0[:max(1, len(s0) - len(s0) % 8 - 8 * rng.randrange(0, 2))][-max(1, rng.choice([4, 8, 12, 16])):])
+                        schcs.append('R:' + '0' * rng.choice([1, 8, 16]))
             yield f"hist manager {esc(stack)} {e_rules(rules_all)} {len(ops)} {' '.join(ops)} # {tags}"
     if props & {'C16'}:
         # long-lived managers built on a next-header-PREDICTING parser ('IPv6', 'IPv4', 'UDP'), fed packets whose upper
